@@ -198,7 +198,7 @@ pub fn explore(ctx: &Ctx) {
 }
 
 pub fn replay(ctx: &Ctx, _clause: &str, case: &Value) {
-    let c: PtCase = serde_json::from_value(case.clone()).expect("case");
+    let c: PtCase = serde_json::from_value::<PtCase>(case.clone()).map(PtCase::fix).expect("case");
     let mut l = Local::default();
     let conv = Conv::build(&c.params, c.site, c.date - Days::new(PAD), c.date + Days::new(PAD), c.weather, &mut l);
     judge(ctx, &mut l, &c.params, c.site, c.date, &conv, c.weather);
